@@ -25,7 +25,7 @@ BudSim   == [way |-> 4, way2 |-> 2, rand |-> 3, hs |-> 4, badhs |-> 2, msg |-> 8
 
 Reset == [k |-> "Reset", retries |-> RETRIES, cap |-> CAP, sess_ttl |-> TTL]
 Init == /\ h = HInit(RETRIES, CAP, TTL) /\ env = EInit /\ bud = BUD
-        /\ hist = <<Reset>> /\ last = [in |-> Reset, rin |-> [k |-> "Nop"], hadSess |-> FALSE, hadPend |-> FALSE, pendRids |-> {}, expPend |-> FALSE, lateInt |-> FALSE, wayHs |-> FALSE]
+        /\ hist = <<Reset>> /\ last = [in |-> Reset, rin |-> [k |-> "Nop"], hadSess |-> FALSE, hadPend |-> FALSE, pendRids |-> {}, expPend |-> FALSE, lateInt |-> FALSE, hadOld |-> FALSE, wayHs |-> FALSE]
         /\ subm = {} /\ outc = [r \in RIDS |-> 0] /\ proved = {} /\ xreq = {} /\ rot = {}
 
 Parties == PEERS \cup (IF ATTACKER THEN {"A"} ELSE {})
@@ -66,13 +66,18 @@ Messages == UNION {{[k |-> "PeerMessage", party |-> env.sess[i].party, from |-> 
                                                               r \in IntRids, x \in {"p1", "p2", "p3"} \ {env.sess[i].party}} ELSE {})   \* another node's (address-less) record
                     \cup (IF "intnone" \in MSGSEL THEN {[t |-> "resp", rid |-> r, body |-> "nodes", total |-> 1, rec |-> "none"] : r \in IntRids} ELSE {})}
               : i \in 1..Len(env.sess)}
+\* the attacker presents, from a peer's own socket, a message sealed under the all-zero key that names that peer
+ZeroMsgs == IF ATTACKER /\ "zerokey" \in MSGSEL
+            THEN {[k |-> "PeerMessage", party |-> "A", claim |-> h.sessq[i].addr.id, from |-> h.sessq[i].addr.sock, key |-> "zero",
+                   msg |-> [t |-> "req", xid |-> "x1", body |-> "ping"]] : i \in 1..Len(h.sessq)}
+            ELSE {}
 Replays == UNION {{[k |-> "Replay", idx |-> i, from |-> f] : f \in {env.inj[i].from} \cup (IF ATTACKER THEN {"aA"} ELSE {})} : i \in 1..Len(env.inj)}
 Forgets == {[k |-> "PeerForget", party |-> p] : p \in {env.sess[i].party : i \in 1..Len(env.sess)}}
 
 Moves ==
   [app  |-> AppReqs,
    appr |-> AppResps \cup AppWrus,
-   rand |-> Randoms, way |-> WaysOk, hs |-> HandshakesOk, msg |-> Messages, dup |-> Replays, lose |-> Forgets,
+   rand |-> Randoms, way |-> WaysOk, hs |-> HandshakesOk, msg |-> Messages \cup ZeroMsgs, dup |-> Replays, lose |-> Forgets,
    adv  |-> {[k |-> "Advance", ticks |-> t] : t \in {TO \div 2, TO}},
    age  |-> {[k |-> "AgeSessions", units |-> u] : u \in {1, TTL + 1}}]
 \* which budget a move draws from
@@ -80,6 +85,7 @@ BudgetOf(kind, in) ==
   CASE kind = "way" -> IF \E j \in 1..Len(env.inj) : env.inj[j].k = "way" /\ env.inj[j].echo = in.echo THEN "way2" ELSE "way"
     [] kind = "hs"  -> IF in.party = "A" THEN "atk" ELSE IF in.sig # "own" \/ in.rec = "none" THEN "badhs" ELSE "hs"
     [] kind = "rand" -> IF in.party = "A" THEN "atk" ELSE "rand"
+    [] kind = "msg" -> IF in.party = "A" /\ "key" \in DOMAIN in /\ in.key = "zero" THEN "atk" ELSE "msg"
     [] kind = "appr" -> "msg"      \* application reactions are not budgeted separately
     [] OTHER -> kind
 
@@ -109,6 +115,7 @@ Do(kind, in) ==
                         lateInt |-> rin.k = "msg" /\ rin.msg.t = "resp" /\ SessIdx(h, Addr(rin.src, rin.from)) # 0 /\ Sess(h, Addr(rin.src, rin.from)).aw = rin.msg.rid
                                     /\ (\A i \in 1..Len(h.active) : h.active[i].rid # rin.msg.rid)
                                     /\ (\E i \in 1..Len(h.active) : h.active[i].addr = Addr(rin.src, rin.from) /\ ~h.active[i].int),
+                        hadOld |-> rin.k = "msg" /\ SessIdx(h, Addr(rin.src, rin.from)) # 0 /\ Sess(h, Addr(rin.src, rin.from)).old # "none",
                         wayHs |-> rin.k = "way" /\ \E i \in 1..Len(h.active) : h.active[i].n = rin.echo /\ h.active[i].hs /\ h.active[i].kind = "msg" /\ h.active[i].addr.sock = rin.from]
         /\ hist' = Append(hist, in)
         /\ subm' = IF in.k = "AppRequest" THEN subm \cup {in.rid} ELSE subm
@@ -217,6 +224,8 @@ GoalJunkSigHs == ~(last.in.k = "PeerHandshake" /\ last.in.party = "A" /\ last.in
 GoalReplayUnverifiableHs == ~(last.in.k = "Replay" /\ last.rin.k = "hs" /\ Len(hist) >= 2
                               /\ hist[Len(hist) - 1].k = "PeerHandshake" /\ hist[Len(hist) - 1].sig = "own" /\ hist[Len(hist) - 1].rec # "none"
                               /\ hist[Len(hist) - 1].from = HomeSock(hist[Len(hist) - 1].party) \o "b" /\ last.in.from = hist[Len(hist) - 1].from)
+\* a message under the all-zero key, from the socket of a peer whose session has been re-keyed (it keeps its previous keys too)
+GoalZeroKeyAfterRekey == ~(last.in.k = "PeerMessage" /\ "key" \in DOMAIN last.in /\ last.in.key = "zero" /\ last.hadOld)
 GoalBadSigKeepsChallenge == ~(last.rin.k = "hs" /\ last.rin.signer = "bad" /\ HasChal(h, Addr(last.rin.src, last.rin.from)))
 GoalReplayedHs  == ~(last.in.k = "Replay" /\ last.rin.k = "hs" /\ Len(h.sessq) >= 1)
 =============================================================================
